@@ -74,6 +74,8 @@ impl Monitor for M {
             Phase::new("vm_random", tier.pick(15_000, 400_000)).batch(16),
             // nearly valid constants that the big model declares out of its domain
             Phase::new("radix_fraction", tier.pick(4_000, 100_000)).batch(32),
+            // hex digits A-F of category 12 (TeX §445 other_A_token): a separate path in the code under test
+            Phase::new("hex_other", tier.pick(300, 6_000)).batch(8),
         ]
     }
 
@@ -93,6 +95,7 @@ impl Monitor for M {
             ("fn:Scaled::new", f(1_000_000, 1_000_000)),
             ("fn:Scaled::new:overflow", f(10_000, 10_000)),
             ("fn:Glue::wrapping_add", f(50_000, 1_000_000)),
+            ("hex_other:digits_of_category_other", f(10_000, 200_000)),
             ("vm:statements", f(2_500_000, 70_000_000)),
             ("vm:agree", f(2_300_000, 65_000_000)),
             ("vm:vm_pairs:advance:count", 1500),
@@ -157,6 +160,7 @@ impl Monitor for M {
             "vm_random" => random_case(rng, obs),
             "known" => known_case(idx, obs),
             "radix_fraction" => radix_fraction_case(rng, obs),
+            "hex_other" => hex_other_case(rng, obs),
             _ => obs.inconclusive(format!("unknown phase {phase}")),
         }
     }
@@ -781,6 +785,69 @@ fn decimals_in(text: &str) -> Vec<String> {
 /// the number therefore ENDS in front of the point; no unit follows, so §459 reports "Illegal unit
 /// of measure (pt inserted)", the value is the integer in pt, and `.5pt` stays in the input and is
 /// typeset. Own tiny oracle (the statement is outside the domain of the token-level model).
+// ------------------------------------------------------------------------------------------
+// hex_other: A-F with category code 12
+// ------------------------------------------------------------------------------------------
+
+/// TeX §445 accepts the hex digits A-F both as letters (`A_token`) and as other characters (`other_A_token`), e.g. after
+/// `\catcode`\A=12` or when they come out of `\string`/`\the`. One VM with A-F re-categorised runs 30 statements whose
+/// constants are hex with at least one A-F digit; the model gets the same tokens with those digits as `Other`.
+fn hex_other_case(rng: &mut Rng, obs: &mut Obs) {
+    let mut runner = vmlevel::Runner::new();
+    let subset: Vec<char> = "ABCDEF".chars().filter(|_| rng.chance(3, 4)).collect();
+    let setup: String = subset.iter().map(|c| format!("\\catcode`\\{c}=12 ")).collect();
+    if !setup.is_empty() && !runner.run_unchecked(obs, &setup) {
+        return;
+    }
+    for _ in 0..30 {
+        let kind = *rng.pick(&["count", "dimen", "skip"]);
+        let reg = 1 + rng.below(6);
+        let mag: u64 = match rng.below(6) {
+            0 => rng.below(256),
+            1 => 0x7FFF_FFFF - rng.below(3),
+            2 => 0x7FFF_FFFF + 1 + rng.below(0x1000),
+            3 => rng.below(1 << 30),
+            _ => rng.below(1 << 20),
+        };
+        let sign = *rng.pick(&["", "", "-", "+-", "- -"]);
+        let zeros = if rng.chance(1, 5) { "00" } else { "" };
+        let constant = format!("{sign}\"{zeros}{mag:X}");
+        let op = rng.below(10);
+        let text = match (op, kind) {
+            (0..=4, "count") => format!("\\count{reg}={constant} "),
+            (0..=4, "dimen") => format!("\\dimen{reg}={constant}sp "),
+            (0..=4, _) => format!("\\skip{reg}={constant}sp plus {constant}sp "),
+            (5..=6, "count") => format!("\\advance\\count{reg} by {constant} "),
+            (5..=6, k) => format!("\\advance\\{k}{reg} by {constant}sp "),
+            (7..=8, k) => format!("\\multiply\\{k}{reg} by {constant} "),
+            (_, k) => format!("\\divide\\{k}{reg} by {constant} "),
+        };
+        let Ok(toks) = m::lex(&format!("{text}\\relax")) else {
+            obs.inconclusive("hex_other statement does not lex");
+            return;
+        };
+        let mut others = 0u64;
+        let toks: Vec<m::Tok> = toks
+            .into_iter()
+            .map(|t| match t {
+                m::Tok::Letter(c) if subset.contains(&(c as char)) => {
+                    others += 1;
+                    m::Tok::Other(c)
+                }
+                t => t,
+            })
+            .collect();
+        obs.count("hex_other:statements");
+        obs.add("hex_other:digits_of_category_other", others);
+        if !runner.check_tokens(obs, &text, Some(toks), "hex_other") {
+            // the VM was discarded (fatal error or panic): set the category codes up again
+            if !setup.is_empty() && !runner.run_unchecked(obs, &setup) {
+                return;
+            }
+        }
+    }
+}
+
 fn radix_fraction_case(rng: &mut Rng, obs: &mut Obs) {
     let hex = rng.coin();
     let n: i64 = rng.range_i64(0, 4000);
